@@ -260,6 +260,61 @@ def main(tier, replay=None):
             why = single_run_oracle(pre, a, b, suf, parse_infer(rep)) + oracle([x], [y], 1.0, parse_infer(rep))
             if why:
                 chk.violation({"property": PID, "shape": "single-run", "why": "; ".join(why[:3]), "minus": [x], "plus": [y], "result": rep})
+    # ---- black box: the whole pipeline (hunk-line buffering included): with --max-line-distance 1 a run of m removed and
+    #      p added lines, both within --line-buffer-size, is one subhunk: the i-th removed line is paired with the i-th
+    #      added line (each carries exactly its changed word as emphasis), lines without a partner carry none
+    import term
+    from concurrent.futures import ThreadPoolExecutor
+    bcases = []
+    for i in range(60 if tier == "quick" else 900):
+        rr = vlib.case_rng(chk.seed, PID, ("bb", i))
+        B = rr.choice([1, 2, 3, 4, 8, 32])
+        m = rr.choice([B, B, max(1, B - 1), rr.randint(1, B)])
+        p_ = rr.choice([B, B, max(1, B - 1), rr.randint(1, B)])
+        bcases.append({"B": B, "m": m, "p": p_, "sbs": rr.random() < 0.3, "ctx": rr.random() < 0.5})
+    if replay and json.load(open(replay)).get("shape") == "bb-pairing":
+        bcases = [json.load(open(replay))["case"]]
+    elif replay:
+        bcases = []
+
+    def bb_lines(c):
+        minus = [f"row{i} keeps the words old{i}x and a tail" for i in range(c["m"])]
+        plus = [f"row{i} keeps the words new{i}y and a tail" for i in range(c["p"])]
+        body = ([" before"] if c["ctx"] else []) + ["-" + x for x in minus] + ["+" + x for x in plus] + [" after"]
+        return ["diff --git a/f.txt b/f.txt", "index 1..2 100644", "--- a/f.txt", "+++ b/f.txt",
+                f"@@ -1,{c['m'] + 1 + c['ctx']} +1,{c['p'] + 1 + c['ctx']} @@"] + body
+
+    def bb_run(c):
+        args = ["--no-gitconfig", "--paging", "never", "--syntax-theme", "none", "--max-line-distance", "1.0", "--line-buffer-size", str(c["B"]),
+                "--minus-style", "normal 52", "--minus-non-emph-style", "normal 52", "--minus-emph-style", "normal 201", "--plus-style", "normal 22",
+                "--plus-non-emph-style", "normal 22", "--plus-emph-style", "normal 46", "--width", "200"] + (["--side-by-side"] if c["sbs"] else [])
+        return vlib.run_delta(args, stdin=("\n".join(bb_lines(c)) + "\n").encode())
+    with ThreadPoolExecutor(max_workers=vlib.NCPU) as ex:
+        bres = list(ex.map(bb_run, bcases))
+    for c, (rc, out, err) in zip(bcases, bres):
+        chk.case(("bb", json.dumps(c, sort_keys=True)), True, c)
+        chk.count("blackbox-pairing:B=%d" % c["B"])
+        if rc != 0:
+            continue   # crashes are C03's business
+        rows = term.decode(out)
+        why = []
+        for side, n_, word, emph_bg in (("removed", c["m"], "old%dx", ("p", 201)), ("added", c["p"], "new%dy", ("p", 46))):
+            for i in range(n_):
+                w = word % i
+                hit = [row for row in rows if w in row.text()]
+                if len(hit) != 1:
+                    continue   # C01 / C07 decide whether every line is shown
+                t = hit[0].text()
+                a = t.find(w)
+                emph = [j for j, cl in enumerate(hit[0].cells) if cl[2] == emph_bg and j < len(t)]
+                paired = i < min(c["m"], c["p"])
+                if paired and emph != list(range(a, a + len(w))):
+                    why.append(f"{side} line {i} of a {c['m']}-removed / {c['p']}-added run (buffer size {c['B']}) has emphasis on cells {emph[:6]}, "
+                               f"its changed word {w!r} is cells {a}..{a + len(w) - 1}: it is not paired with line {i} of the other side")
+                if not paired and emph:
+                    why.append(f"{side} line {i} has no partner but carries emphasis")
+        if why:
+            chk.violation({"property": PID, "shape": "bb-pairing", "case": c, "why": "; ".join(why[:2]), "input": "\n".join(bb_lines(c))})
     chk.oblige("correspondence:tokenize+operations", mism == 0, f"{mism} of {nwb} white-box cases differ between model and implementation")
     chk.extra["traces_validated_against_impl"] = nwb - mism
     chk.assumptions = ["\\w of the regex crate = default_is_word on the generator's alphabet (checked by the tokenize correspondence)",
